@@ -5,7 +5,7 @@ set -e
 mkdir -p build evidence replays coq/gen coq/Findings
 export PYTHONPATH=/repo:/verif PYTHONHASHSEED=0 JAX_PLATFORMS=cpu
 # regenerate the source-derived Coq files (py2coq) from /repo's working tree
-if [ -f tools/py2coq.py ]; then /venv/bin/python tools/py2coq.py --all || echo "py2coq: some unit failed (reported by the checks)"; fi
+/venv/bin/python -W ignore tools/regen.py 2>&1 | grep -v -i conda | tail -3
 /venv/bin/python - <<'PY'
 from vf.common import ensure_makefile
 ensure_makefile()
